@@ -214,7 +214,7 @@ def rotation_spd(draw, D, cond_max=100.0):
 @st.composite
 def constraint(draw, coords, x0z, D, nonlinear, zs, p):
     """Constraint spec built around x0's normalised position (x0z may be None: use the centre)."""
-    kind = draw(st.sampled_from(["ball", "ball", "half", "band", "annulus", "union2", "checker"]))
+    kind = draw(st.sampled_from(list(p.get("cons_kinds", ("ball", "ball", "half", "band", "annulus", "union2", "checker")))))
     x0cls = draw(st.sampled_from(p["cons_x0"])) if x0z is not None else "margin"
     base = list(x0z) if x0z is not None else [0.0] * D
     ret = draw(st.sampled_from(["real", "real", "bool"]))
@@ -251,6 +251,8 @@ def constraint(draw, coords, x0z, D, nonlinear, zs, p):
         if x0cls == "infeasible":
             zc2 = [v + 2.5 * r * ai for v, ai in zip(zc, a)]
         spec.update(zc=zc, zc2=zc2, r=r)
+    elif kind == "gridhalf":
+        spec.update(zc=list(base), h=2.0**-10, t=base[0] + draw(st.sampled_from([0.05, 0.2, 0.5])), x0cls="margin")
     elif kind == "checker":
         pp = draw(st.sampled_from([0.25, 0.5, 1.0]))
         off = {"margin": 0.0, "boundary": pp, "infeasible": 1.4 * pp, "snap_only": 0.0}[x0cls]
@@ -354,8 +356,9 @@ def scenario(draw, p=None):
         if mode == "specified" and p.get("specified_noise_size") and chance(draw, 0.2):
             opts["noise_size"] = noise["sigma"]  # documented as ignored (with a warning) under specified noise
     fes = None
-    if p["extra_options"] and chance(draw, 0.1):
-        fes = draw(st.sampled_from([0, 1, 2 * D, 10]))
+    if p["extra_options"] and chance(draw, p.get("p_fes", 0.1)):
+        fes = draw(st.sampled_from(list(p.get("fes_choices", (0, 1, "2D", 10)))))
+        fes = 2 * D if fes == "2D" else fes
         opts["fun_eval_start"] = fes
     ds = design_size(D, mode in ("declared", "specified", "auto"), fes)
     init_calls = 1 + (0 if noisy_declared else 1) + ds
